@@ -129,6 +129,27 @@ CHECKS["C10"] = dict(
     ref="5/C10 and 12",
 )
 
+CHECKS["C06"] = dict(
+    technique="TLA+ specifications of the OTL offset-graph packer (OTLGraph / OTLPack: intern, gather, place, emit) and of the overflow-resolution loop (OTLResolve / OTLRepack: attempt, overflow record, DontShare / extension promotion / subtable split, fallback, return or raise) model-checked; TLC-exported graphs rebuilt with the real OTTableWriter and exported resolution states pushed through the real tryResolveOverflow; recorded resolution loops of real compiles validated step by step; compiled tables judged by Denote equality (OTLSem) and HarfBuzz shaping",
+    text="TLC checks InternSound, EveryNodePlaced, TopologicalOrder, EdgesResolve and NoSilentWrap on every writer tree of a small family (shared Coverage, Extension, DontShare, Coverage-last) and DenotationPreserved, Progress, ReturnImpliesValid, RaiseOnlyWhenStuck and termination of the resolution loop over lookup lists built from sixteen subtable prototypes; exported graphs are rebuilt with the real OTTableWriter at 8192 bytes per unit and packed in both packing modes, the bytes read back by a linear scan and by following the stored offsets (overflow iff the model overflows, overflow record, emitted order, every offset lands on its block); exported (lookups, overflow record) states run through the real tryResolveOverflow and TLC compares Denote before and after and the structure with the model's successor; corpus fonts, feaLib builds and sixteen generated tables that overflow at every level are compiled under USE_HARFBUZZ_REPACKER in {False, None, True} and GPOS compaction levels 0..9, decompiled afresh, and TLC checks Denote equality of in-memory and decompiled lookups on rule-derived probes, HarfBuzz agreement across serialisations and with OTLSem, and every recorded resolution loop against the OTLRepack actions; an unpackable table must raise.",
+    note="Trusted: TLC, OTLSem, the projection of layout tables, HarfBuzz (hb.repack is a black box judged only through decompile, Denote and shaping). A compile exceeding its CPU budget without a recorded non-progressing step is skipped as inconclusive. OTLResolve transcribes the current fix*/split* arithmetic.",
+    ref="5/C06 and 12",
+)
+
+CHECKS["C07"] = dict(
+    technique="TLA+ specification of the subsetter as a staged state machine over an abstract font (Subset.tla: closure stages, renumbering, per-table subsetting) with the property's clauses as state predicates, model-checked; TLC-exported (font, request, options) cases realised as real fonts and run through the real Subsetter; corpus fonts x seeded requests x options; staged sets, projections and HarfBuzz observations judged by TLC (minimal closure and Shape computed by TLC through OTLSem)",
+    text="TLC checks RequestedPresent, ClosureSufficient (least fixed point), Monotone, NoDangling, RetainGids and ShapingPreserved on every request over small abstract fonts (five glyphs, composite, two or three GSUB lookups incl. contextual with nested lookups, one GPOS lookup, two features, retain_gids on/off, option combinations, a second closure pass) and exports the cases; a stratified sample (always including every case whose closure needs a second pass) is realised with FontBuilder + feaLib and subset by the real Subsetter; 300 corpus fonts (binaries, compiled TTX incl. variable and CID-keyed fonts, a synthetic seac font) are subset with seeded unicode / glyph / gid / text requests (incl. requests that split a coverage or drop a class) and option combinations; the trace carries the subsetter's staged sets, its glyph index map, the glyph references of every result table, in-memory and saved cmap, kept outlines / advances / variations / GDEF classes / CFF widths and HarfBuzz shaping of probe texts built from the original's rules on both fonts with exactly the retained features, and TLC judges every clause.",
+    note="Trusted: TLC, OTLSem, the projections, HarfBuzz under explicit script/language/features (shaping skipped where HarfBuzz synthesises glyph classes or falls back to another script). Closure from the projection is a lower bound for FeatureVariations alternates, cmap 14 and COLRv1. One open known finding (--no-notdef-glyph renumbers a requested glyph to glyph 0).",
+    ref="5/C07 and 12",
+)
+
+CHECKS["C17"] = dict(
+    technique="TLA+ specifications of glyph reordering (Reorder.tla: the file-level gid-indexed picture vs the name-keyed view) and em rescaling (ScaleUpem.tla: per storage kind rounding bounds, nothing else changes) model-checked incl. negative variants; model fonts and every corpus font transformed by the real reorderGlyphs / scale_upem, by-name and by-kind projections and HarfBuzz / raw-reader observations judged by TLC",
+    text="TLC checks that a consistent permutation of every gid-indexed structure leaves the name view unchanged and that each of eight wrong variants (a parallel array not permuted, coverage not re-sorted, ...) is distinguished, and the ScaleUpem bounds for absolute, relative and accumulated quantities with all nine bound witnesses; the model families, hand-built rich TrueType / CFF fonts (hdmx, LTSH, kern, VORG/vmtx, COLR v0/v1, HVAR without map, gvar, cmap 14, device tables, ligature carets, BASE, MATH, SVG, point-matched composites) and all corpus fonts are reordered with seeded permutations and rescaled to seeded upem targets by the real functions; TLC judges per glyph name outline, metrics, cmap, layout Denote, variation data and table views before vs after (reorder), every design-unit number against OtRound(k v) within the bound its storage kind derives and every other field identical (scale), sortedness of coverages, no dangling glyph ids, and HarfBuzz outlines / advances / shaping by name.",
+    note="Trusted: TLC, the projections, HarfBuzz and the independent sfnt reader as observers. Tables the transformations declare unsupported (NotImplementedError) are skipped and counted; an exception while scaling up is skipped as possible overflow. One open known finding (SVG glyph-ID ranges).",
+    ref="5/C17 and 12",
+)
+
 NOT_YET = "check not built yet in this round (see DESIGN.md section 10 for the build order)"
 
 
